@@ -317,3 +317,197 @@ def replay(run, pid, behs, seed, limit=None):
             run.sample({"tree": b["tree"], "cfg": b["cfg"], "listings": b["listings"]})
     finally:
         rmtree(base)
+
+
+# ---------------------------------------------------------------- C18: effects and the stdout branch
+VARIANTS = [
+    {},
+    {"rst": {"prefix": "pfx", "file_extensions_in_titles": True}},
+    {"rst": {"headers": ["=", "-"], "file_extensions_in_modules": True}, "input": {"include_undocumented_function": False}},
+    {"rst": {"module_path_separator": "::"}, "input": {"include_undocumented_macro": False, "include_undocumented_option": False}},
+]
+
+
+@contextlib.contextmanager
+def instrumented(inp, listings, obs):
+    import cminx
+    real_walk, real_dsf = os.walk, cminx.document_single_file
+
+    def order(names, want):
+        pos = {n: i for i, n in enumerate(want)}
+        return sorted(names, key=lambda n: (pos.get(n, len(want)), n))
+
+    def walk(top, topdown=True, onerror=None, followlinks=False):
+        for root, dirs, files in real_walk(top, topdown, onerror, followlinks):
+            rel = os.path.relpath(root, inp)
+            rel = "" if rel == "." else rel
+            if rel.count("/") > 9:
+                raise RuntimeError("walk diverges")
+            l = listings.get(rel)
+            if l is not None and sorted(l["ldirs"]) == sorted(dirs) and sorted(l["lfiles"]) == sorted(files):
+                dirs[:] = order(dirs, l["ldirs"])
+                files[:] = order(files, l["lfiles"])
+            else:
+                dirs[:] = sorted(dirs, reverse=True)
+                files[:] = sorted(files, reverse=True)
+            yield root, dirs, files
+
+    def dsf(file, root, s):
+        obs["docs"].append(os.path.relpath(file, inp))
+        return real_dsf(file, root, s)
+    os.walk, cminx.document_single_file = walk, dsf
+    try:
+        yield
+    finally:
+        os.walk, cminx.document_single_file = real_walk, real_dsf
+
+
+def c18_case(beh, sandbox, n):
+    """Run the same invocation with and without -o; returns None or (expected, observed, why)."""
+    import yaml
+    import naming
+    cfg = beh["cfg"]
+    variant = VARIANTS[n % len(VARIANTS)]
+    kind = cfg["out"]["kind"]
+    style = ["abs", "rel", "parent"][n % 3] if kind in ("outside", "none") else kind
+    prepop = (n // 3) % 2 == 0
+
+    def build(root):
+        work = os.path.join(root, "work")
+        inp = os.path.join(work, "in")
+        os.makedirs(inp)
+        materialise(beh["tree"], inp)
+        with open(os.path.join(work, "bystander.txt"), "w") as fh:
+            fh.write("keep me\n")
+        os.makedirs(os.path.join(root, "home"))
+        if n % 40 != 0:
+            # the per-user configuration directory exists (as after any earlier run); every 40th case probes
+            # the first-run situation (known finding K2: confuse creates the directory)
+            os.makedirs(os.path.join(root, "home", ".config", "cminx"))
+        if style == "abs":
+            out, spelled = os.path.join(root, "outdir"), os.path.join(root, "outdir")
+        elif style == "rel":
+            out, spelled = os.path.join(work, "rel", "out"), os.path.join("rel", "out")
+        elif style == "parent":
+            out, spelled = work, work
+        else:
+            out = os.path.join(inp, *cfg["out"]["path"])
+            spelled = out
+        if prepop and style != "parent":
+            os.makedirs(os.path.join(out, "old"), exist_ok=True)
+            for f in ("keep.txt", "old/keep.rst", "unrelated.rst"):
+                with open(os.path.join(out, f), "w") as fh:
+                    fh.write("pre-existing " + f)
+        s = {"input": {"recursive": cfg["recursive"], "auto_exclude_directories_without_cmake": cfg["auto"],
+                       "exclude_filters": [p.replace("@", inp) for p in cfg["pats"]]},
+             "rst": {}, "logging": yaml.safe_load(open(os.path.join(lib.CMINX_SRC, "cminx", "config_default.yaml")))["logging"]}
+        for sec, vals in variant.items():
+            s[sec].update(vals)
+        sfile = os.path.join(root, "settings.yaml")
+        with open(sfile, "w") as fh:
+            yaml.safe_dump(s, fh)
+        return work, inp, out, spelled, sfile
+
+    listings = {"/".join(l["dir"]): l for l in beh.get("listings", [])}
+    ra = os.path.join(sandbox, "A")
+    rb = os.path.join(sandbox, "B")
+    os.makedirs(ra)
+    os.makedirs(rb)
+    work, inp, out, spelled, sfile = build(ra)
+    before = snapshot(ra)
+    oa = {"docs": []}
+    with instrumented(inp, listings, oa):
+        exc, _ = naming.run_main(["-s", sfile, "-o", spelled, "in"], work, os.path.join(ra, "home"))
+    after = snapshot(ra)
+    if exc:
+        return "run with -o completes", exc, "cminx raised on an in-domain input"
+    orel = os.path.relpath(out, ra)
+
+    def under(p):
+        return (p.rstrip("/") + "/").startswith(orel + "/") or (orel + "/").startswith(p) and p.endswith("/")
+    created = [p for p in after if p not in before]
+    changed = [p for p in before if p in after and before[p] != after[p]]
+    deleted = [p for p in before if p not in after]
+    bad = [p for p in created + changed if not under(p)] + deleted
+    pre_touched = [p for p in changed if os.path.basename(p.rstrip("/")) in ("keep.txt", "keep.rst", "unrelated.rst", "bystander.txt")]
+    if bad or pre_touched:
+        only_cfg = bool(bad) and not pre_touched and set(bad) <= {"home/.config/", "home/.config/cminx/"}
+        return [], {"outside_output_dir_or_deleted": bad, "preexisting_changed": pre_touched, "only_user_config_dir": only_cfg}, \
+            "the run created/changed/deleted something outside the output directory or touched unrelated files in it"
+    # pages written by run A, keyed by source file
+    pages = {}
+    for d in oa["docs"]:
+        stem = ".".join(os.path.basename(d).split(".")[:-1])
+        pp = os.path.join(out, os.path.dirname(d), stem + ".rst")
+        if not os.path.exists(pp):
+            return "page for " + d, "missing", "a documented file has no page under the output directory"
+        pages[d] = open(pp, encoding="utf-8").read()
+    work, inp, out, spelled, sfile = build(rb)
+    before = snapshot(rb)
+    ob = {"docs": []}
+    with instrumented(inp, listings, ob):
+        exc, stdout = naming.run_main(["-s", sfile, "in"], work, os.path.join(rb, "home"))
+    after = snapshot(rb)
+    if exc:
+        return "run without -o completes", exc, "cminx raised on an in-domain input"
+    if after != before:
+        diff = sorted(set(after) ^ set(before)) + [p for p in before if p in after and before[p] != after[p]]
+        return [], diff, "a run without output directory changed the file system"
+    if sorted(ob["docs"]) != sorted(oa["docs"]):
+        return sorted(oa["docs"]), sorted(ob["docs"]), "the files documented with and without -o differ"
+    exp = "".join(pages[d] + "\n" for d in ob["docs"])
+    if stdout != exp:
+        return exp, stdout, "standard output is not exactly the pages the -o run wrote, each followed by one empty line"
+    # per directory: contiguous and in sorted order
+    seen = []
+    for d in ob["docs"]:
+        dd = os.path.dirname(d)
+        if seen and seen[-1][0] == dd:
+            if seen[-1][1] > os.path.basename(d):
+                return "sorted", ob["docs"], "pages of a directory are not printed in sorted name order"
+        elif dd in [x[0] for x in seen]:
+            return "contiguous", ob["docs"], "pages of a directory are not printed together"
+        seen.append((dd, os.path.basename(d)))
+    return None
+
+
+def _chunk18(args):
+    chunk, base = args
+    out = []
+    for n, beh in chunk:
+        sb = tempfile.mkdtemp(prefix="c18_", dir=base)
+        try:
+            r = c18_case(beh, sb, n) if beh["indom"] and beh["outcome"] == "ok" else "out"
+            out.append((n, r))
+        finally:
+            rmtree(sb)
+    return out
+
+
+def replay_c18(run, behs, seed, limit=None):
+    if limit and len(behs) > limit:
+        behs = random.Random(seed).sample(behs, limit)
+    base = tempfile.mkdtemp(prefix="verif_c18_", dir="/dev/shm" if os.path.isdir("/dev/shm") else None)
+    try:
+        items = list(enumerate(behs))
+        chunks = [(items[i::lib.NCPU * 4], base) for i in range(lib.NCPU * 4)]
+        chunks = [c for c in chunks if c[0]]
+        with ProcessPoolExecutor(max_workers=lib.NCPU, initializer=_init, initargs=(lib.CMINX_SRC,)) as ex:
+            for part in ex.map(_chunk18, chunks):
+                for n, r in part:
+                    beh = behs[n]
+                    run.behaviours += 1
+                    if r == "out":
+                        continue
+                    run.count(json.dumps([beh["tree"], beh["cfg"], beh["listings"], n % 12], sort_keys=True))
+                    if r is not None:
+                        exp, got, why = r
+                        feats = features(beh)
+                        feats["only_user_config_dir_created"] = bool(isinstance(got, dict) and got.get("only_user_config_dir"))
+                        run.violation({"tree": beh["tree"], "cfg": beh["cfg"], "listings": beh["listings"], "variant": n % 12,
+                                       "features": feats}, exp, got, why)
+        if behs:
+            b = behs[len(behs) // 2]
+            run.sample({"tree": b["tree"], "cfg": b["cfg"], "listings": b["listings"]})
+    finally:
+        rmtree(base)
